@@ -10,6 +10,7 @@ hypothesis `c.gps S (List.ofFn λ) = List.ofFn (gpsSpec P y a S λ)` (the statem
 region of `divide_and_truncate`).
 -/
 import StirVerif.C07.ProofsRun
+import StirVerif.C07.ProofsLogLikCast
 import Mathlib.Data.Fin.VecNotation
 import Mathlib.Tactic.FinCases
 import Mathlib.Algebra.BigOperators.Fin
@@ -215,14 +216,39 @@ example : DataOK [2, 0, 1] [1, 0, 3] := by
   simp only [List.zip_cons_cons, List.zip_nil_right, List.mem_cons, List.not_mem_nil, or_false] at hp
   rcases hp with rfl | rfl | rfl <;> norm_num
 
-/-! ## Not proved here -/
+/-! ## Monotone log-likelihood (single subset) -/
 
-/-- "with a single subset the Poisson log-likelihood never decreases": the classical EM monotonicity statement (over ℝ,
-    `L(λ) = Σ_b y_b log(eff_b ((Pλ)_b + a_b)) − eff_b ((Pλ)_b + a_b)`).  See `ProofsLogLik.lean` if present; otherwise this
-    clause is checked by the oracle only (`compute_objective_function` before/after every full-data update). -/
-def C07_loglik_monotone_statement : Prop :=
-  ∀ (nb nv : ℕ) (P : Fin nb → Fin nv → ℚ) (y a eff : Fin nb → ℚ) (lam : Fin nv → ℚ),
-    (∀ b j, 0 ≤ P b j) → (∀ b, 0 ≤ y b) → (∀ b, 0 ≤ a b) → (∀ b, 0 < eff b) → (∀ j, 0 < lam j) →
-    (∀ b, 0 < fwd P lam b + a b) → True
+/-- "with a single subset the Poisson log-likelihood never decreases": the classical EM theorem over ℝ,
+    `L(λ) = Σ_b y_b log(eff_b ((Pλ)_b + a_b)) − eff_b ((Pλ)_b + a_b)`, `EM(λ)_j = λ_j · Σ_b P_bj y_b/((Pλ)_b+a_b) / Σ_b P_bj eff_b`
+    (0 where the sensitivity is 0): for `P, y, a ≥ 0`, efficiencies `> 0`, a strictly positive image and strictly positive
+    estimated data (regular region of `divide_and_truncate`), `L(EM(λ)) ≥ L(λ)`.  (Jensen per bin, `x log x − x + 1 ≥ 0`
+    per voxel; no further assumption — in particular voxels with zero sensitivity and bins without counts are allowed.) -/
+theorem C07_loglik_monotone_real {nb nv : ℕ} (P : Fin nb → Fin nv → ℝ) (y a eff : Fin nb → ℝ) (lam : Fin nv → ℝ)
+    (hP : ∀ b j, 0 ≤ P b j) (hy : ∀ b, 0 ≤ y b) (ha : ∀ b, 0 ≤ a b) (he : ∀ b, 0 < eff b) (hl : ∀ j, 0 < lam j)
+    (hq : ∀ b, 0 < Real.ybar P a lam b) :
+    Real.logLik P y a eff lam ≤ Real.logLik P y a eff (Real.em P y a eff lam) :=
+  Real.loglik_monotone' P y a eff lam hP hy ha he hl hq
+
+/-- … and for the rational quantities of the model: the image `emStep` that `C07_em_formula_subIter` shows the
+    sub-iteration to produce has a log-likelihood (evaluated in ℝ) not below that of the image before. -/
+theorem C07_loglik_monotone {nb nv : ℕ} (P : Fin nb → Fin nv → ℚ) (y a eff : Fin nb → ℚ) (lam : Fin nv → ℚ)
+    (hP : ∀ b j, 0 ≤ P b j) (hy : ∀ b, 0 ≤ y b) (ha : ∀ b, 0 ≤ a b) (he : ∀ b, 0 < eff b) (hl : ∀ j, 0 < lam j)
+    (hq : ∀ b, 0 < fwd P lam b + a b) :
+    Real.logLik (fun b j => (P b j : ℝ)) (fun b => (y b : ℝ)) (fun b => (a b : ℝ)) (fun b => (eff b : ℝ))
+        (fun j => (lam j : ℝ)) ≤
+      Real.logLik (fun b j => (P b j : ℝ)) (fun b => (y b : ℝ)) (fun b => (a b : ℝ)) (fun b => (eff b : ℝ))
+        (fun j => ((emStep P y a eff univ lam j : ℚ) : ℝ)) :=
+  loglik_monotone_rat P y a eff lam hP hy ha he hl hq
+
+/-- non-vacuity: a 2-bin × 2-voxel system with counts, no additive term, satisfying every hypothesis -/
+def exP2 : Fin 2 → Fin 2 → ℚ := ![![1, 2], ![0, 3]]
+
+example : (∀ b j, 0 ≤ exP2 b j) ∧ (∀ b, (0 : ℚ) ≤ (![5, 0] : Fin 2 → ℚ) b) ∧ (∀ j, (0 : ℚ) < exLam j) ∧
+    (∀ b, 0 < fwd exP2 exLam b + (fun _ => (0 : ℚ)) b) := by
+  refine ⟨?_, ?_, ?_, ?_⟩
+  · intro b j; fin_cases b <;> fin_cases j <;> norm_num [exP2]
+  · intro b; fin_cases b <;> norm_num
+  · intro j; fin_cases j <;> norm_num [exLam]
+  · intro b; fin_cases b <;> norm_num [fwd, exP2, exLam, Fin.sum_univ_succ]
 
 end StirVerif.C07
